@@ -3,7 +3,7 @@
    Model: Model/ArenaModel.v.  [step] is the interleaving semantics of concurrent grow_by calls (one model thread per call),
    [reach step s0 s] = s is reached from s0 by ANY thread choices and ANY oracle integers (spurious CAS failures);
    every explicit schedule is covered (C37_every_schedule_is_covered).  [arena_wf] is the invariant of every quiescent arena;
-   it is established by the constructor and kept by grow_by and by (defined) copies (C37_constructor, C37_grow_sequential,
+   it is established by the constructor and kept by grow_by and by copies (C37_constructor, C37_grow_sequential,
    C37_copy_keeps_wf).  Domain: no Index overflow (unbounded integers), deltas >= 0 (Index is unsigned). *)
 From Coq Require Import ZArith List Bool Lia.
 From DV Require Import Base.Sched Model.ArenaModel Proofs.C37Proofs.
@@ -94,46 +94,34 @@ Theorem C37_grow_sequential : forall a d nid a' r n',
 Proof. exact grow_spec_proof. Qed.
 Print Assumptions C37_grow_sequential.
 
-(* ---- copies.  The full statement (every quiescent arena can be copied, the copy has the same size and contents) ... *)
-Definition C37_full_statement_copy : Prop :=
-  forall a nid, arena_wf a -> exists c n', copy_ctor a nid = Some (c, n') /\ a_pos c = a_pos a /\ contents c = contents a.
-
-(* ... is FALSE: minBuffSize 2, grow to 5 elements (3 buffers in a table of 4), copy: the copy constructor's loop runs to
-   buffersSize_ and reads the never-written fourth table entry *)
-Theorem C37_refuted :
-  exists a1 n1 a r n,
-    new_arena 2 0 0 = Some (a1, n1) /\ grow a1 5 n1 = Some (a, r, n) /\ arena_wf a /\ a_pos a = 5 /\ a_bpos a = 3 /\ a_tsz a = 4 /\
-    copy_reads_uninit a = true /\ copy_ctor a n = None.
-Proof. exact copy_refuted_proof. Qed.
-Print Assumptions C37_refuted.
-
-Theorem C37_full_statement_copy_is_false : ~ C37_full_statement_copy.
-Proof. exact copy_statement_false_proof. Qed.
-Print Assumptions C37_full_statement_copy_is_false.
-
-(* the copy constructor is undefined exactly on the finding's domain: buffersPos_ < buffersSize_ *)
-Theorem C37_copy_undefined_iff : forall a nid, arena_ok a -> (copy_ctor a nid = None <-> copy_reads_uninit a = true).
-Proof. exact copy_undefined_iff_proof. Qed.
-Print Assumptions C37_copy_undefined_iff.
-
-(* outside that domain the copy is exact: same size, capacity, buffer count, every cell equal, fresh buffers only (deep copy) *)
-Theorem C37_holds_except : forall a nid, arena_ok a -> copy_reads_uninit a = false ->
+(* ---- copies.  The copy constructor is defined on every arena (any number of internal buffers, full table or not) and exact:
+   same size, capacity, buffer count and table capacity, every cell equal, fresh buffers only (deep copy).
+   (Until the fix commit in /repo the constructor looped to buffersSize_ and this statement was refuted for every arena with
+   buffersPos_ < buffersSize_; the former witness is the regression example below.) *)
+Theorem C37_copy_equal : forall a nid, arena_ok a ->
   exists c n', copy_ctor a nid = Some (c, n') /\
     a_pos c = a_pos a /\ a_cap c = a_cap a /\ a_bpos c = a_bpos a /\ a_tsz c = a_tsz a /\
     (forall i, get_cell c i = get_cell a i) /\ contents c = contents a /\
     (forall b bf, get_buf c b = Some bf -> (nid <= bid bf < n')%nat) /\
     arena_ok c.
 Proof. exact copy_equal_proof. Qed.
-Print Assumptions C37_holds_except.
+Print Assumptions C37_copy_equal.
+
+(* the former refutation witness: minBuffSize 2, grow to 5 elements (3 buffers in a table of 4), copy -- now exact *)
+Example C37_copy_regression :
+  exists a1 n1 a r n c n',
+    new_arena 2 0 0 = Some (a1, n1) /\ grow a1 5 n1 = Some (a, r, n) /\ a_pos a = 5 /\ a_bpos a = 3 /\ a_tsz a = 4 /\
+    copy_ctor a n = Some (c, n') /\ shape c = shape a /\ contents c = repeat (Some dflt) 5 /\ contents a = repeat (Some dflt) 5.
+Proof. exact copy_regression_proof. Qed.
+Print Assumptions C37_copy_regression.
 
 Theorem C37_copy_keeps_wf : forall a nid c n', arena_wf a -> copy_ctor a nid = Some (c, n') -> arena_wf c.
 Proof. exact copy_wf. Qed.
 Print Assumptions C37_copy_keeps_wf.
 
-(* copy construction / copy assignment as operations on named arenas: defined only outside the finding's domain, then exact *)
+(* copy construction / copy assignment as operations on named arenas: exact *)
 Theorem C37_copy_construct : forall w d s a w' out,
   slot w s = Some a -> arena_ok a -> exec_op w (OCopy d s) = Some (w', out) ->
-  copy_reads_uninit a = false /\
   exists c, slot w' d = Some c /\ slot w' s = Some a /\ a_pos c = a_pos a /\ contents c = contents a /\
             (forall b bf, get_buf c b = Some bf -> (w_next w <= bid bf)%nat).
 Proof. exact copy_op_exact_proof. Qed.
@@ -141,7 +129,6 @@ Print Assumptions C37_copy_construct.
 
 Theorem C37_copy_assign : forall w d s a old w' out,
   slot w s = Some a -> slot w d = Some old -> arena_ok a -> exec_op w (OAssign d s) = Some (w', out) ->
-  copy_reads_uninit a = false /\
   exists c, slot w' d = Some c /\ a_pos c = a_pos a /\ contents c = contents a /\ (d <> s -> slot w' s = Some a).
 Proof. exact assign_exact_proof. Qed.
 Print Assumptions C37_copy_assign.
